@@ -109,6 +109,29 @@ def check(run):
                         lines.append((cid, "irange %d %d %s %s" % (root, k, kt, k2)))
                         meta[cid] = (db, None, "ScanRange(%s) stop after %d" % (name, k))
                         meta[cid] = (db, ("rangeprefix", first, k), "ScanRange(%s, %s, %s) stop after %d" % (name, kt, k2, k))
+    # nested use of one Table / Index value: a lookup that its own callback ends at the first row, from inside the callback of
+    # the scan that is being stopped after k rows
+    nlines, nmeta = [], {}
+    for i, db in enumerate(dbs):
+        nlines.append(("open%d" % i, "db %s" % db.path))
+        trees = [(n, t["root"], "nscan" if t["kind"] != "norowid" else "niscan") for n, t in db.tables.items()] + [(n, t["root"], "niscan") for n, t in db.indexes.items()]
+        for name, root, op in trees[:(4 if quick else None)]:
+            full = simpl.get("%d/%s" % (i, name)) or []
+            rows = full[:-1]
+            for k in sorted(set([1, 2, 3, len(rows) // 2, len(rows) - 1, len(rows), 0]))[:(5 if quick else None)]:
+                if k < 0 or k > len(rows):
+                    continue
+                cid = "%d/%s/%s/%d" % (i, name, op, k)
+                nlines.append((cid, "%s %d %d" % (op, root, k)))
+                nmeta[cid] = (db, rows[:k] + ["end stop"] if 0 < k else rows + ["end ok"], "%s(%s) with a nested stopped scan on the same value, stop after %d" % (op, name, k))
+    _, nimpl, _ = ops.run_cmds("c17-nested", nlines, timeout=900, sides=("impl",))
+    for cid, (db, exp, what) in nmeta.items():
+        run.count()
+        o = nimpl.get(cid)
+        if o is not None and o != exp:
+            run.violation("%s: delivered %d row lines ending %s; expected exactly the first %d rows and then the stop" % (what, len(o) - 1, o[-2:], len(exp) - 1),
+                          {"kind": "early-stop", "db": db.path, "command": cid, "impl": o[-3:], "expected_tail": exp[-2:]})
+            break
     res, impl, model = ops.run_cmds("c17-stops", lines, timeout=2400, shards=8)
     for cid, cmd in lines:
         if cid not in meta:
